@@ -92,6 +92,20 @@ func c18Values() []c18Value {
 		b.WithKeyTypes(7, 4)
 		c3, err := b.Build()
 		add("Certificate(builder)", c3, err)
+		// identities assembled field by field (the fields are exported) without padding, wrapped by the validating
+		// constructors: what a serialiser "fills in" for them it must not fill in on the shared value
+		if kcl, err := key_certificate.NewKeyCertificateWithTypes(7, 4); err == nil {
+			mk := id.Value.(refmodel.KeysAndCert)
+			pk, e1 := adapt.CryptoPub(4, mk.Crypto)
+			sk, e2 := adapt.SigningPub(7, mk.Signing)
+			if e1 == nil && e2 == nil {
+				lit := &keys_and_cert.KeysAndCert{KeyCertificate: kcl, ReceivingPublic: pk, SigningPublic: sk}
+				add("KeysAndCert(field-assembled, no padding)", lit, nil)
+				if dl, err := destination.NewDestination(&keys_and_cert.KeysAndCert{KeyCertificate: kcl, ReceivingPublic: pk, SigningPublic: sk}); err == nil {
+					add("Destination(field-assembled, no padding)", dl, nil)
+				}
+			}
+		}
 		legacy := refmodel.NewKAC(0, 0, true, nil, func() []byte { x := refmodel.Fill("lc", 1, 256); x[0] = 0x11; return x }(), nil, gen.Key(0, 21).Pub)
 		d3, _, err := destination.ReadDestination(legacy.Bytes())
 		add("Destination(parsed, NULL certificate)", &d3, err)
@@ -100,6 +114,10 @@ func c18Values() []c18Value {
 		a := refmodel.RouterAddress{Cost: 5, Style: []byte("NTCP2"), Options: gen.MappingMenu[8]}
 		v, _, err := router_address.ReadRouterAddress(a.Bytes())
 		add("RouterAddress(parsed)", &v, err)
+		// a non-zero expiration: against the letter of the specification, accepted by the parser (with a warning)
+		ax := refmodel.RouterAddress{Cost: 9, Expiration: 1900000000000, Style: []byte("SSU2"), Options: gen.MappingMenu[1]}
+		vx, _, err := router_address.ReadRouterAddress(ax.Bytes())
+		add("RouterAddress(parsed, non-zero expiration)", &vx, err)
 		c, err := router_address.NewRouterAddress(5, time.Time{}, "SSU2", map[string]string{"host": "::1", "port": "80", "caps": "6"})
 		add("RouterAddress(constructed)", c, err)
 	}
